@@ -91,9 +91,23 @@ class Spec:
         if k == "Block":
             env2 = dict(env)
             for s_ in n.get("ss", []):
+                s0 = s_
                 s_ = T.peel(s_)
                 if s_.get("k") == "LetStmt" and "i" in s_:
+                    if "els" in s_:
+                        c0 = self.cev(s_["i"], env2, depth)
+                        if c0 is None or self.pat_matches(s_["p"], c0) is not True:
+                            return None     # the else block may leave: the value of the block is not its tail
                     self.bind(s_["p"], self.cev(s_["i"], env2, depth), env2)
+                    if any(x.get("k") == "Return" for x in T.walk(s_["i"])):
+                        return None
+                elif any(x.get("k") in ("Return",) for x in T.walk(s0)):
+                    # a statement that may return early (a loop with `return Some(..)`, an `if .. { return .. }`): the tail is
+                    # the value only on some paths
+                    scratch = []
+                    d = self._reach(s0, dict(env2), scratch, depth)
+                    if any(x.get("k") == "Return" for x in scratch):
+                        return None
             return self.cev(n["e"], env2, depth) if n.get("e") is not None else None
         if k == "If":
             c = self.cev(n["c"], env, depth)
@@ -139,6 +153,18 @@ class Spec:
                             self.bind(p_["p"], cc, env2)
                     return self.cev(c["body"], env2, depth + 1)
             return None
+        if k == "Call" and n.get("n") in ("map", "cloned", "copied", "as_ref", "as_mut", "as_deref", "inspect", "as_deref_mut") and n.get("a") and ("option::Option" in (n.get("f") or "") or "result::Result" in (n.get("f") or "")):
+            c = self.cev(n["a"][0], env, depth)
+            if c and c[0] == "enum" and c[1] in ("Some", "None", "Ok", "Err"):
+                return c        # these combinators keep the variant
+            return None
+        if k == "Call" and n.get("n") in ("is_some", "is_none", "is_ok", "is_err") and len(n.get("a", [])) == 1:
+            c = self.cev(n["a"][0], env, depth)
+            if c and c[0] == "enum" and c[1] in ("Some", "None", "Ok", "Err"):
+                pos = {"is_some": "Some", "is_none": "None", "is_ok": "Ok", "is_err": "Err"}[n["n"]]
+                if (c[1] in ("Some", "None")) == (pos in ("Some", "None")):
+                    return ("bool", c[1] == pos)
+            return None
         if k == "Call" and n.get("n") in ("any", "all") and len(n.get("a", [])) == 2 and T.peel(n["a"][1]).get("k") == "Closure":
             # a predicate that has the same constant value for every element (scenario: the collection is not empty)
             c = self.F.by_path.get(T.peel(n["a"][1]).get("d"))
@@ -169,6 +195,10 @@ class Spec:
             return
         p = T.pat_peel(pat) if pat.get("k") != "Bind" else pat
         if pat.get("k") == "Bind":
+            if pat.get("mut"):
+                # a `let mut` local may be reassigned (also from inside a closure): its initial value is not its value
+                env.pop(pat["id"], None)
+                return
             env[pat["id"]] = c
             if "sub" in pat:
                 self.bind(pat["sub"], c, env)
